@@ -46,7 +46,7 @@ pub fn signing(cex: &Value) -> Result<String, String> {
     for (frag, scope) in scopes.iter() {
       block_on(doc.generate_method(&storage, KeyType::new("Ed25519"), JwsAlgorithm::EdDSA, Some(&frag[1..]), *scope)).unwrap();
     }
-    let payloads: [&[u8]; 3] = [b"{\"iss\":\"did:example:signer\"}", b"hello world", b"a.b"];
+    let payloads: [&[u8]; 4] = [b"{\"iss\":\"did:example:signer\"}", b"hello world", b"a.b", &[0xff, 0xfe, 0x80, 0x41]];
     let mut combos = 0u32;
     for code in 0u32..(3 * 2 * 3 * 2 * 2 * 2 * 2 * 2 * 2) {
       let mut c = code;
@@ -102,7 +102,7 @@ pub fn signing(cex: &Value) -> Result<String, String> {
           Ok(t) => t,
           Err(e) => {
             // the only refusal this universe contains: an unencoded attached payload with a '.' in it
-            if !(b64_o == 2 && !detached && payload.contains(&b'.')) {
+            if !(b64_o == 2 && !detached && (payload.contains(&b'.') || std::str::from_utf8(payload).is_err())) {
               log.push(format!("{tag}: create_jws refused: {e}"));
             }
             continue;
@@ -160,6 +160,32 @@ pub fn signing(cex: &Value) -> Result<String, String> {
           v
         };
         let verify = |v: &JwsVerificationOptions| doc.verify_jws(token.as_str(), det, &EdDSAJwsVerifier::default(), v).is_ok();
+        // what verify_jws hands back is the signed payload (decoded), attached or detached, and the header that was signed
+        match doc.verify_jws(token.as_str(), det, &EdDSAJwsVerifier::default(), &base().method_id(method_id.clone())) {
+          Ok(d) => {
+            if d.claims.as_ref() != payload {
+              log.push(format!("{tag}: verify_jws hands back claims that are not the signed payload"));
+            }
+            if d.protected.kid() != Some(kid_override.clone().unwrap_or_else(|| method_id.to_string()).as_str()) {
+              log.push(format!("{tag}: verify_jws hands back another protected header"));
+            }
+          }
+          Err(_) => {}
+        }
+        // a configured method id that does not resolve (unknown fragment, or outside the configured scope) is an error - the
+        // token's own kid is not a fallback; nor is a DID that differs in letter case the same DID
+        let nope = DIDUrl::parse("did:example:signer#no-such-method").unwrap();
+        if verify(&base().method_id(nope)) {
+          log.push(format!("{tag}: verifies although the configured method id does not resolve (fell back to the kid)"));
+        }
+        let out_of_scope = scopes[(mi + 1) % 3].1;
+        if kid_override.is_none() && verify(&base().method_id(method_id.clone()).method_scope(out_of_scope)) {
+          log.push(format!("{tag}: verifies although the configured method id is outside the configured scope"));
+        }
+        let upper = DIDUrl::parse(format!("did:example:SIGNER{frag}")).unwrap();
+        if verify(&base().method_id(upper)) {
+          log.push(format!("{tag}: verifies under a method id whose DID differs in letter case"));
+        }
         // by kid when the kid is the method's id; by explicit method id always
         if kid_override.is_none() && !verify(&base()) {
           log.push(format!("{tag}: does not verify by its kid against the document it was produced for"));
